@@ -444,6 +444,110 @@ theorem three_roll_interchangeable (ρ : String → ℝ) (c : List (Pt ℝ)) (W 
   intro g hg o ho
   exact okIn_sound ρ canon3 g _ (fun x hx _ => canon3_sound ρ c W x hx) (three_roll_control g hg o ho)
 
+/-! ## life cycle "dimensioned late"
+
+A pass constructed WITHOUT gap / height / inscribed-circle diameter (a stand from a catalogue), looked at from outside while
+its opening is undetermined (`contour_lines`, the member hooks, `usable_width`; each failing look caught by the caller) and
+given one member by assignment afterwards.  The looks must not decide anything about the opening: whatever they leave
+behind on the object (`__cache__`, the memoised `_contour_lines`) is kernel-evaluated on the GENERATED tables. -/
+
+/-- the looks at a three-roll pass from outside that the model knows: its member hooks, `usable_width`, `contour_lines` -/
+def looks3 : List Probe := [.hook G, .hook H, .hook D, .hook U, .contour]
+
+def looks2 : List Probe := [.hook G, .hook H, .hook U, .contour]
+
+/-- one look at a three-roll pass without members fails and leaves the object exactly as it was -/
+theorem three_roll_look_leaves_no_trace : ∀ p ∈ looks3, probe three_cls p bare = (.attrErr, bare) := by decide
+
+/-- ANY sequence of such looks (of any length, with repetitions) fails look by look and leaves no trace -/
+theorem three_roll_looks_leave_no_trace (ls : List Probe) (h : ∀ p ∈ ls, p ∈ looks3) :
+    (probes three_cls ls bare).2 = bare ∧ ∀ x ∈ (probes three_cls ls bare).1, x.2 = Res.attrErr := by
+  induction ls with
+  | nil => simp [probes]
+  | cons p ps ih =>
+    have hp := three_roll_look_leaves_no_trace p (h p (by simp))
+    have := ih (fun q hq => h q (by simp [hq]))
+    simp only [probes, hp]
+    refine ⟨this.1, ?_⟩
+    intro x hx
+    simp only [List.mem_cons] at hx
+    rcases hx with rfl | hx
+    · rfl
+    · exact this.2 x hx
+
+/-- hence a three-roll pass dimensioned AFTER it was looked at answers exactly like a fresh pass dimensioned at construction -/
+theorem three_roll_late_is_fresh (ls : List Probe) (h : ∀ p ∈ ls, p ∈ looks3) (g : String) (o : List String) :
+    (lateSession three_cls ls [g] o).2 = session three_cls [g] o := by
+  simp only [lateSession, (three_roll_looks_leave_no_trace ls h).1]
+  rfl
+
+/-- **interchangeability, three rolls, dimensioned late** -/
+theorem three_roll_late_interchangeable (ρ : String → ℝ) (c : List (Pt ℝ)) (W : World3 ρ c)
+    (ls : List Probe) (h : ∀ p ∈ ls, p ∈ looks3) :
+    ∀ g ∈ [G, H, D], ∀ o ∈ orders3,
+      (∀ x ∈ (lateSession three_cls ls [g] o).2.1, ∃ e, x.2 = Res.val e ∧ eval ρ e = ρ x.1) ∧
+      (∀ xs, (lateSession three_cls ls [g] o).2.2.contour = some xs → ∀ x ∈ xs, eval ρ x.2 = ρ x.1) := by
+  intro g hg o ho
+  rw [three_roll_late_is_fresh ls h g o]
+  exact three_roll_interchangeable ρ c W g hg o ho
+
+/-- a two-roll pass without members: the only trace a look can leave is the cached `usable_width` (which does not depend
+    on the opening) -/
+def bareU : HState := { dict := [], cache := [(U, two_usable_width_e)], contour := Option.none }
+
+theorem two_roll_look_trace : ∀ p ∈ looks2,
+    ((probe two_cls p bare).2 = bare ∨ (probe two_cls p bare).2 = bareU) ∧ (probe two_cls p bareU).2 = bareU ∧
+    ((probe two_cls p bare).1 = .attrErr ∨ (probe two_cls p bare).1 = .val two_usable_width_e) ∧
+    ((probe two_cls p bareU).1 = .attrErr ∨ (probe two_cls p bareU).1 = .val two_usable_width_e) := by decide
+
+theorem two_roll_looks_trace (ls : List Probe) (h : ∀ p ∈ ls, p ∈ looks2) :
+    ∀ st, (st = bare ∨ st = bareU) →
+      ((probes two_cls ls st).2 = bare ∨ (probes two_cls ls st).2 = bareU) ∧
+      ∀ x ∈ (probes two_cls ls st).1, x.2 = Res.attrErr ∨ x.2 = Res.val two_usable_width_e := by
+  induction ls with
+  | nil => intro st hst; simpa [probes] using hst
+  | cons p ps ih =>
+    intro st hst
+    have hp := two_roll_look_trace p (h p (by simp))
+    have ih' := ih (fun q hq => h q (by simp [hq]))
+    simp only [probes]
+    rcases hst with rfl | rfl
+    · have := ih' _ hp.1
+      refine ⟨this.1, ?_⟩
+      intro x hx
+      simp only [List.mem_cons] at hx
+      rcases hx with rfl | hx
+      · exact hp.2.2.1
+      · exact this.2 x hx
+    · have := ih' (probe two_cls p bareU).2 (Or.inr hp.2.1)
+      refine ⟨this.1, ?_⟩
+      intro x hx
+      simp only [List.mem_cons] at hx
+      rcases hx with rfl | hx
+      · exact hp.2.2.2
+      · exact this.2 x hx
+
+/-- control on a two-roll pass whose `usable_width` was cached before the member was assigned -/
+theorem two_roll_control_after_looks :
+    ∀ g ∈ [G, H], ∀ o ∈ orders2, okIn canon2 g (reads two_cls o (assign [g] bareU)) = true := by decide
+
+/-- **interchangeability, two rolls, dimensioned late** -/
+theorem two_roll_late_interchangeable (ρ : String → ℝ) (W : World2 ρ) (ls : List Probe) (h : ∀ p ∈ ls, p ∈ looks2) :
+    ∀ g ∈ [G, H], ∀ o ∈ orders2,
+      (∀ x ∈ (lateSession two_cls ls [g] o).1, x.2 = Res.attrErr ∨ ∃ e, x.2 = Res.val e ∧ eval ρ e = ρ U) ∧
+      (∀ x ∈ (lateSession two_cls ls [g] o).2.1, ∃ e, x.2 = Res.val e ∧ eval ρ e = ρ x.1) := by
+  intro g hg o ho
+  have ht := two_roll_looks_trace ls h bare (Or.inl rfl)
+  constructor
+  · intro x hx
+    rcases ht.2 x hx with h1 | h1
+    · exact Or.inl h1
+    · exact Or.inr ⟨_, h1, by simpa [U] using W.usable_width.symm⟩
+  · simp only [lateSession]
+    rcases ht.1 with h1 | h1 <;> rw [h1]
+    · exact (okIn_sound ρ canon2 g _ (fun x hx _ => canon2_sound ρ W x hx) (two_roll_control g hg o ho)).1
+    · exact (okIn_sound ρ canon2 g _ (fun x hx _ => canon2_sound ρ W x hx) (two_roll_control_after_looks g hg o ho)).1
+
 /-! ## non-vacuity: concrete contours / openings satisfying the hypotheses -/
 
 /-- a triangular groove of width 4 and depth 1 with its face vertices at `y = 0` -/
@@ -534,5 +638,17 @@ example : dist (placePt env3 three_roll_line1 ⟨-(1 + Real.sqrt 3), 1⟩) (plac
     = 1 := by
   have := three_roll_neighbour_gap env3 (1 + Real.sqrt 3) 1 (by simp [env3]) (by simp [env3])
   simpa [env3] using this
+
+/-- dimensioned late: the same opening, the height assigned after `contour_lines`, `height` and `usable_width` were asked of
+    the bare pass -/
+example : ∀ x ∈ (lateSession three_cls [.contour, .hook H, .hook U] [H] [D, G, H]).2.1,
+    ∃ e, x.2 = Res.val e ∧ eval env3 e = env3 x.1 :=
+  (three_roll_late_interchangeable env3 tri3 world3_example _ (by decide) H (by simp [G, H, D]) _
+    (by simp [orders3, G, H, D, U])).1
+
+/-- two rolls: `usable_width` answers on the bare pass (and stays cached), `contour_lines` does not; the gap assigned
+    afterwards still determines the height -/
+example : (lateSession two_cls [.hook U, .contour] [G] [H]).1 = [(U, .val two_usable_width_e), ("contour_lines", .attrErr)] ∧
+    (lateSession two_cls [.hook U, .contour] [G] [H]).2.1 = [(H, .val two_height_e)] := by decide
 
 end C09
